@@ -190,8 +190,8 @@ pub fn sc_fence_pair(p: &Program) -> bool {
     n >= 2
 }
 
-/// F6': an Arc inspection (strong_count / get_mut / try_unwrap) in one thread and a
-/// clone or drop of the same Arc in another.
+/// F6': an Arc inspection (strong_count / get_mut / try_unwrap) in one thread while another thread
+/// owns a handle of the same Arc (every owner clones, drops or implicitly drops at its end).
 pub fn arc_inspect_race(p: &Program) -> bool {
     for x in 0..p.n_arcs() as u8 {
         let insp: Vec<usize> = p
@@ -199,14 +199,15 @@ pub fn arc_inspect_race(p: &Program) -> bool {
             .filter(|(_, _, o)| matches!(o, Op::ArcCount { x: y } | Op::ArcGetMut { x: y } | Op::ArcTryUnwrap { x: y } if *y == x))
             .map(|(t, _, _)| t)
             .collect();
-        let modi: Vec<usize> = p
-            .ops()
-            .filter(|(_, _, o)| {
-                matches!(o, Op::ArcClone { x: y, .. } | Op::ArcDrop { x: y } | Op::ArcDecStrong { x: y } | Op::ArcIncStrong { x: y } | Op::ArcTryUnwrap { x: y } | Op::ArcGetMut { x: y } if *y == x)
-            })
-            .map(|(t, _, _)| t)
-            .collect();
-        if insp.iter().any(|a| modi.iter().any(|b| a != b)) {
+        let mut holders: Vec<usize> = vec![p.arc_owner[x as usize] as usize];
+        for (_, _, o) in p.ops() {
+            if let Op::ArcClone { x: y, to } = o {
+                if *y == x {
+                    holders.push(*to as usize);
+                }
+            }
+        }
+        if insp.iter().any(|a| holders.iter().any(|b| a != b)) {
             return true;
         }
     }
